@@ -163,6 +163,61 @@ def correspondence(trees, label, rule):
             "skipped": skipped, "known_site_hits": {str(k): v for k, v in sorted(sites.items())}, "mismatches": mism[:20]}
 
 
+def first_difference(p, points, assignments):
+    """(q, x, original, optimized) for the first point at which optimize(p) answers differently from p, else None"""
+    try:
+        q = optimize(p)
+    except Exception:  # noqa: BLE001
+        return None
+    if assignments:
+        ns = names_of(p)
+        pts = [dict(zip(ns, bits)) for bits in itertools.product([False, True], repeat=len(ns))]
+    else:
+        pts = points
+    for x in pts:
+        if assignments:
+            set_names(p, x)
+            set_names(q, x)
+            kp, rp = call(p, False)
+            kq, rq = call(q, False)
+        else:
+            if not atoms_defined(p, x):
+                continue
+            kp, rp = call(p, x)
+            if kp != "ok":
+                continue
+            kq, rq = call(q, x)
+        if kq != "ok" or bool(rq) != bool(rp):
+            return q, x, rp, (rq if kq == "ok" else f"raises {rq}")
+    return None
+
+
+def shrink(p, points, assignments, budget=200):
+    """a smaller tree that still fails: descend into failing sub-terms, replace operands by constants, drop negations"""
+    cur, n = p, 0
+    progress = True
+    while progress and n < budget:
+        progress = False
+        cands = []
+        for a in ("left", "right", "predicate"):
+            c = getattr(cur, a, None)
+            if isinstance(c, PP.Predicate):
+                cands.append(c)
+        if isinstance(cur, (PP.AndPredicate, PP.OrPredicate, PP.XorPredicate)):
+            for const in (PP.always_true_p, PP.always_false_p):
+                cands += [type(cur)(left=cur.left, right=const), type(cur)(left=const, right=cur.right)]
+            for a, b in (("left", "right"), ("right", "left")):
+                for sub in [getattr(getattr(cur, a), s_, None) for s_ in ("left", "right", "predicate")]:
+                    if isinstance(sub, PP.Predicate):
+                        cands.append(type(cur)(**{a: sub, b: getattr(cur, b)}))
+        for c in cands:
+            n += 1
+            if first_difference(c, points, assignments) is not None:
+                cur, progress = c, True
+                break
+    return cur
+
+
 def search(trees, points, pid, payload, assignments=False, family=None):
     """implementation-side test of the property's statement.  A failing input that belongs to the property's deterministic
     FAMILY (family[i] true) is a known finding only if its key is LISTED in tools/props/listed/<pid>.json; any other
@@ -213,6 +268,14 @@ def search(trees, points, pid, payload, assignments=False, family=None):
             break
     new, known_hits = [], []
     known_ids = {k["id"] for k in vlib.load_known().get("findings", []) if pid in k.get("properties", [])}
+    for f in fails[:12]:            # shrink the first few failing trees from outside the family (the replay shows a small input)
+        if "unlisted_family_member" in f:
+            continue
+        small = shrink(f["p"], points, assignments)
+        d = first_difference(small, points, assignments) if small is not f["p"] else None
+        if d is not None:
+            f["shrunk_from"] = repr(f["p"])[:300]
+            f["p"], (f["q"], f["x"], f["orig"], f["opt"]) = small, d
     if fails and payload.get("model_ok", True):
         try:
             rows = model_run([f["p"] for f in fails if encodable(f["p"]) and encodable(f["q"])],
@@ -222,8 +285,10 @@ def search(trees, points, pid, payload, assignments=False, family=None):
         enc_fails = [f for f in fails if encodable(f["p"]) and encodable(f["q"])]
         for i, f in enumerate(enc_fails):
             tr = rows[i][1:] if rows else []
-            rec = {"p": repr(f["p"]), "optimized": repr(f["q"]), "x": repr(f["x"]), "original_answer": repr(f["orig"]),
+            rec = {"p": repr(f["p"]), "p_structure": skey(f["p"]), "optimized": repr(f["q"]), "x": repr(f["x"]), "original_answer": repr(f["orig"]),
                    "optimized_answer": repr(f["opt"]), "model_trace": tr}
+            if "shrunk_from" in f:
+                rec["shrunk_from"] = f["shrunk_from"]
             if "unlisted_family_member" in f:
                 rec["note"] = ("this member of the deterministic input family fails but is not among the failing inputs listed in "
                                f"tools/props/listed/{pid}.json" + (f" (it fails through listed rule site(s) {sorted(set(tr))}: a new way into a "
